@@ -4,7 +4,7 @@ namespace Netpoll.Shard
 /-- ring safety core: while an adder is about to write its entry, fewer than `size` entries are unconsumed -/
 theorem ring_len_lt (s : S) (i : Nat) (a : Adder) (hS : GStruct s) (hR : GRing s) (hP : GPend s)
     (ha : s.adders[i]? = some a) (hpc : a.pc = .lWrite) : s.ring.length < s.size := by
-  obtain ⟨⟨_, _, s1g⟩, s2⟩ := hS
+  obtain ⟨⟨_, _, s1g⟩, s2, _⟩ := hS
   have hbad := tally_ge (aBadShard s.size) ha
   have hsh : a.shard < s.size := by
     simp only [aBadShard, hpc] at hbad
